@@ -35,6 +35,12 @@ func corpus(w *lib.Writer) {
 		Step{Op: "rem2", I: zp(-1)}, rd, Step{Op: "rem2", I: zp(4)}, rd, Step{Op: "rem1"}, rd)
 	add(ins(I(3)), ins(I(1)), ins(I(2)), Step{Op: "sort", Cmp: &Cmp{Kind: "nil"}}, rd, Step{Op: "insbad"}, rd,
 		Step{Op: "sort", Cmp: &Cmp{Kind: "gt_truthy"}}, rd, Step{Op: "sort", Cmp: &Cmp{Kind: "lt_truthy"}}, rd)
+	// hunt round (all fixed): long concat (a4b99ac), number separator (bee55df), remove(t, nil) (b436cf8),
+	// comparator removing an element during the sort (cc364f6)
+	add(Step{Op: "fill", N: 2600, V: vp(I(7))}, Step{Op: "concat", Sep: "2c"}, Step{Op: "len"})
+	add(ins(I(1)), ins(I(2)), ins(I(3)), Step{Op: "concat", SepNum: zp(0)}, Step{Op: "remnil"}, rd, Step{Op: "remnil"}, Step{Op: "remnil"}, Step{Op: "remnil"})
+	add(ins(I(5)), ins(I(3)), ins(I(8)), ins(I(1)), ins(I(9)), ins(I(2)), ins(I(7)), Step{Op: "sortmut", I: zp(1), Cmp: &Cmp{Kind: "lt"}})
+	add(Step{Op: "fill", N: 20, V: vp(I(4))}, Step{Op: "sortmut", I: zp(1), Cmp: &Cmp{Kind: "const", B: true}})
 	// C09-1 at the library level (fixed 875f0ec): unpack(t, 0, 1) sees t[0]
 	add(asg(0, S("z")), ins(S("a")), Step{Op: "unpack", I: zp(0), J: zp(1)})
 	// empty and one-element lists
